@@ -242,6 +242,8 @@ func Main(checks ...*Check) {
 	shrinkBudget := flag.Duration("shrink", 30*time.Second, "minimisation budget per violation")
 	traceOnly := flag.Bool("traceonly", false, "print seed and trace hash per run (determinism self-test)")
 	maxViol := flag.Int("maxviol", 3, "stop after this many distinct violating rules")
+	knownFlag := flag.String("known", "", "comma-separated rule ids listed as known findings (recorded once, never stop the search)")
+	oneSeed := flag.Uint64("oneseed", 0, "debug: generate and run this run-seed twice, print both event tails")
 	flag.Parse()
 	debug.SetGCPercent(200)
 
@@ -259,7 +261,28 @@ func Main(checks ...*Check) {
 	if *replay != "" {
 		os.Exit(doReplay(c, *replay))
 	}
+	if *oneSeed != 0 {
+		plan := c.Gen(simrt.Derive(*oneSeed, "plan"), *tier)
+		cfg := ConfigFor(*oneSeed)
+		p2 := clone(c, plan)
+		fmt.Printf("PLAN %s\n", mustJSON(plan))
+		o1 := c.Run(plan, cfg)
+		o2 := c.Run(p2, cfg)
+		fmt.Printf("RUN1 hash=%x steps=%d viol=%v\n%s\n", o1.Hash, o1.Steps, o1.Violations, strings.Join(o1.Tail, "\n"))
+		fmt.Printf("RUN2 hash=%x steps=%d viol=%v\n%s\n", o2.Hash, o2.Steps, o2.Violations, strings.Join(o2.Tail, "\n"))
+		for _, p := range append(o1.Panics, o2.Panics...) {
+			fmt.Println("PANIC", p)
+		}
+		os.Exit(0)
+	}
 
+	knownRules := map[string]bool{}
+	for _, k := range strings.Split(*knownFlag, ",") {
+		if k != "" {
+			knownRules[k] = true
+		}
+	}
+	newRules := 0
 	start := time.Now()
 	sum := &Summary{Property: c.ID, Worker: *worker, BaseSeed: *seed, Stats: map[string]int64{}, Policies: map[string]int64{},
 		Rules: map[string]string{}, SimOutcomes: map[string]int64{}}
@@ -320,7 +343,8 @@ func Main(checks ...*Check) {
 			sum.DetChecked++
 			if out2.Hash != out.Hash || out2.Steps != out.Steps {
 				sum.DetMismatch++
-				sum.HarnessErr = fmt.Sprintf("nondeterminism: seed %d hash %x/%x steps %d/%d", rs, out.Hash, out2.Hash, out.Steps, out2.Steps)
+				sum.HarnessErr = fmt.Sprintf("nondeterminism: seed %d hash %x/%x steps %d/%d\nFIRST:\n%s\nSECOND:\n%s\nPANICS: %v %v", rs, out.Hash, out2.Hash, out.Steps, out2.Steps,
+					strings.Join(out.Tail, "\n"), strings.Join(out2.Tail, "\n"), out.Panics, out2.Panics)
 				break
 			}
 		}
@@ -328,7 +352,13 @@ func Main(checks ...*Check) {
 			if _, seen := sum.Rules[v.Rule]; seen {
 				continue
 			}
-			mp, mcfg, mout, log := minimise(c, planCopy, cfg, v.Rule, *shrinkBudget)
+			sb := *shrinkBudget
+			if knownRules[v.Rule] {
+				sb = 2 * time.Second
+			} else {
+				newRules++
+			}
+			mp, mcfg, mout, log := minimise(c, planCopy, cfg, v.Rule, sb)
 			minimised := mout != nil
 			if mout == nil {
 				mp, mcfg, mout = planCopy, cfg, out
@@ -343,7 +373,7 @@ func Main(checks ...*Check) {
 			sum.Rules[v.Rule] = path
 			sum.Replays = append(sum.Replays, path)
 		}
-		if len(sum.Rules) >= *maxViol {
+		if newRules >= *maxViol {
 			break
 		}
 	}
@@ -369,7 +399,7 @@ func writeReplay(c *Check, dir string, seed uint64, cfg simrt.Config, plan any, 
 	if len(rp.Tail) > 120 {
 		rp.Tail = rp.Tail[len(rp.Tail)-120:]
 	}
-	name := fmt.Sprintf("%s/%s-%d.json", dir, c.ID, seed)
+	name := fmt.Sprintf("%s/%s-%d-%08x.json", dir, c.ID, seed, uint32(hashRule(v.Rule)))
 	b, _ := json.MarshalIndent(rp, "", " ")
 	os.WriteFile(name, b, 0o644)
 	return name
@@ -416,4 +446,13 @@ func doReplay(c *Check, path string) int {
 		fmt.Println("REPLAY-DIVERGED")
 	}
 	return 0
+}
+
+func hashRule(s string) uint64 {
+	h := uint64(0xcbf29ce484222325)
+	for i := 0; i < len(s); i++ {
+		h ^= uint64(s[i])
+		h *= 0x100000001b3
+	}
+	return h
 }
